@@ -820,9 +820,8 @@ theorem W_maxBits_grouped (c : PPCfg) (ow : Nat) (hb : c.bpg ≠ 0) (ht : W_tota
     maxBitsPerLine c ow = .ok ((1 + W_wex c ow / W_total c) * c.bpg) := by
   unfold maxBitsPerLine
   rw [if_pos (by omega)]
-  show (if W_total c = 0 then _ else _) = _
+  show Except.ok ((1 + (if W_total c = 0 then 0 else W_wex c ow / W_total c)) * c.bpg) = _
   rw [if_neg ht]
-  rfl
 
 theorem W_c24_ne (f1 f2 : Fmt) : f1.b2c 24 + f2.b2c 24 ≠ 0 := by
   cases f1 <;> cases f2 <;> decide
@@ -921,18 +920,15 @@ theorem W_ppLines_lines {c : PPCfg} {data : Bits} {lines : List Line} (h : ppLin
 /-! ## the width theorem -/
 
 theorem W_maxBits_grouped_inv {c : PPCfg} {ow m : Nat} (hb : c.bpg ≠ 0) (h : maxBitsPerLine c ow = .ok m) :
-    W_total c ≠ 0 ∧ m = (1 + W_wex c ow / W_total c) * c.bpg := by
+    m = (1 + W_wex c ow / W_total c) * c.bpg := by
+  unfold maxBitsPerLine at h
+  rw [if_pos (by omega)] at h
+  have h' : Except.ok ((1 + (if W_total c = 0 then 0 else W_wex c ow / W_total c)) * c.bpg) = Except.ok (ε := Err) m := h
+  simp only [Except.ok.injEq] at h'
+  rw [← h']
   by_cases ht : W_total c = 0
-  · exfalso
-    unfold maxBitsPerLine at h
-    rw [if_pos (by omega)] at h
-    have h' : (if W_total c = 0 then (Except.error (.internal "ZeroDivisionError") : Except Err Nat) else
-        .ok ((1 + W_wex c ow / W_total c) * c.bpg)) = .ok m := h
-    rw [if_pos ht] at h'
-    simp at h'
-  · rw [W_maxBits_grouped c ow hb ht] at h
-    simp only [Except.ok.injEq] at h
-    exact ⟨ht, h.symm⟩
+  · rw [if_pos ht, ht, Nat.div_zero]
+  · rw [if_neg ht]
 
 theorem W_arith1 (j q g S wex : Nat) (hj : j ≤ q) (hq : q * (g + S) ≤ wex) :
     (j + 1) * g + j * S ≤ g + wex := by
@@ -980,9 +976,10 @@ theorem W_width {c : PPCfg} {data : Bits} {lines : List Line} (h : ppLines c dat
   by_cases hbpg : c.bpg ≠ 0
   · -- grouped
     rw [if_pos hbpg]
-    obtain ⟨ht, hmeq⟩ := W_maxBits_grouped_inv hbpg hm
+    have hmeq := W_maxBits_grouped_inv hbpg hm
     obtain ⟨hlen1, -, -, hgc1⟩ := W_formatBits_pos hbpg h1
     have hgc1 := hgc1 hbne
+    have ht : W_total c ≠ 0 := by unfold W_total; omega
     rw [hmeq] at hL0m
     obtain ⟨hk1, hk⟩ := W_ng_bounds hbpg hL0 hL0m
     obtain ⟨j, hj⟩ : ∃ j, (L0 + c.bpg - 1) / c.bpg = j + 1 := ⟨(L0 + c.bpg - 1) / c.bpg - 1, by omega⟩
